@@ -1,7 +1,7 @@
 //@ module src/crypto/noise/mod.rs
-//@ harness c02_poll_write_step kind=proof tier=quick timeout=1800 covers=4
+//@ harness c02_poll_write_step kind=bounded tier=quick timeout=1800 covers=4 bound="write length 0..=3 maximal frames (the encrypt buffer holds at most 2, so longer inputs take the same path as 3), write-buffer factor 1..=2; arbitrary write state"
 //@ harness c02_poll_flush_step kind=proof tier=quick timeout=1800 covers=2
-//@ harness c02_new_buffer_sizes kind=proof tier=quick timeout=900
+//@ harness c02_new_buffer_sizes kind=bounded tier=quick timeout=900 bound="read-ahead factor 1..=5, write-buffer factor 1..=2 (the shipped configuration space)"
 //@ harness c02_noise_socket_canary kind=canary tier=quick timeout=120
 //
 // C02 — write path of NoiseSocket<S>.  S = VerifIo is the carrier CONTRACT (Pending | error | n <= len bytes);
